@@ -109,54 +109,72 @@ fn read_one_shape_as<T: Read, S: ReadableShape>(
     Ok((hdr, shape))
 }
 
+/// Value of the tracked position when the position of the source is not known
+/// (e.g. after an error occurred in the middle of a record)
+const UNKNOWN_POS: usize = usize::MAX;
+
 /// Struct that handle iteration over the shapes of a .shp file
 pub struct ShapeIterator<'a, T: Read, S: ReadableShape> {
     _shape: std::marker::PhantomData<S>,
     // From where we read the shapes
     source: &'a mut T,
     // Current position in bytes in the source.
-    current_pos: usize,
+    // It belongs to the reader, so that it stays correct when
+    // iterating again or after a call to `seek`
+    current_pos: &'a mut usize,
     // How many bytes the header said there are in
     // the file.
     file_length: usize,
-    // Iterator over the shape indices, used to seek
+    // The shape indices, used to seek
     // to the start of a shape when reading
-    shapes_indices: Option<std::slice::Iter<'a, ShapeIndex>>,
+    shapes_index: Option<&'a [ShapeIndex]>,
+    // Index of the next shape to read (also belongs to the reader)
+    next_shape: &'a mut usize,
 }
 
 impl<T: Read + Seek, S: ReadableShape> Iterator for ShapeIterator<'_, T, S> {
     type Item = Result<S, crate::Error>;
 
     fn next(&mut self) -> Option<Self::Item> {
-        if let Some(ref mut shapes_indices) = self.shapes_indices {
+        if let Some(shapes_index) = self.shapes_index {
             // Its 'safer' to seek to the shape offset when we have the `shx` file
             // as some shapes may not be stored sequentially and may contain 'garbage'
             // bytes between them.
             // The index alone tells which shapes are to be read, and in which order.
-            let start_pos = shapes_indices.next()?.offset * 2;
-            if start_pos != self.current_pos as i32 {
+            let start_pos = shapes_index.get(*self.next_shape)?.offset * 2;
+            *self.next_shape += 1;
+            if *self.current_pos == UNKNOWN_POS || start_pos != *self.current_pos as i32 {
+                *self.current_pos = UNKNOWN_POS;
                 if let Err(err) = self.source.seek(SeekFrom::Start(start_pos as u64)) {
                     return Some(Err(err.into()));
                 }
-                self.current_pos = start_pos as usize;
+                *self.current_pos = start_pos as usize;
             }
-        } else if self.current_pos >= self.file_length {
+        } else if *self.current_pos >= self.file_length {
             return None;
         }
         let (hdr, shape) = match read_one_shape_as::<T, S>(self.source) {
-            Err(e) => return Some(Err(e)),
+            Err(e) => {
+                // We do not know where the source stopped. Without index this ends
+                // the iteration, with an index the next shape will be seeked to.
+                *self.current_pos = UNKNOWN_POS;
+                return Some(Err(e));
+            }
             Ok(hdr_and_shape) => hdr_and_shape,
         };
-        self.current_pos += record::RecordHeader::SIZE;
-        self.current_pos += hdr.record_size as usize * 2;
+        *self.current_pos += record::RecordHeader::SIZE;
+        *self.current_pos += hdr.record_size as usize * 2;
         Some(Ok(shape))
     }
 
     fn size_hint(&self) -> (usize, Option<usize>) {
-        self.shapes_indices
-            .as_ref()
-            .map(|s| s.size_hint())
-            .unwrap_or((0, None))
+        match self.shapes_index {
+            Some(shapes_index) => {
+                let remaining = shapes_index.len().saturating_sub(*self.next_shape);
+                (remaining, Some(remaining))
+            }
+            None => (0, None),
+        }
     }
 }
 
@@ -197,6 +215,10 @@ pub struct ShapeReader<T> {
     source: T,
     header: header::Header,
     shapes_index: Option<Vec<ShapeIndex>>,
+    // Position of the source in bytes
+    current_pos: usize,
+    // Index of the shape the source is positioned at
+    next_shape: usize,
 }
 
 impl<T: Read> ShapeReader<T> {
@@ -229,6 +251,8 @@ impl<T: Read> ShapeReader<T> {
             source,
             header,
             shapes_index: None,
+            current_pos: header::HEADER_SIZE as usize,
+            next_shape: 0,
         })
     }
 
@@ -259,6 +283,8 @@ impl<T: Read> ShapeReader<T> {
             source,
             header,
             shapes_index,
+            current_pos: header::HEADER_SIZE as usize,
+            next_shape: 0,
         })
     }
 
@@ -353,9 +379,10 @@ impl<T: Read + Seek> ShapeReader<T> {
         ShapeIterator {
             _shape: std::marker::PhantomData,
             source: &mut self.source,
-            current_pos: header::HEADER_SIZE as usize,
+            current_pos: &mut self.current_pos,
             file_length: (self.header.file_length as usize) * 2,
-            shapes_indices: self.shapes_index.as_ref().map(|s| s.iter()),
+            shapes_index: self.shapes_index.as_deref(),
+            next_shape: &mut self.next_shape,
         }
     }
 
@@ -421,18 +448,19 @@ impl<T: Read + Seek> ShapeReader<T> {
                 return Some(Err(e));
             }
 
-            let (_, shape) = match read_one_shape_as::<T, S>(&mut self.source) {
-                Err(e) => return Some(Err(e)),
-                Ok(hdr_and_shape) => hdr_and_shape,
-            };
+            let result = read_one_shape_as::<T, S>(&mut self.source).map(|(_, shape)| shape);
 
+            // Go back to the first shape, whether or not the read succeeded
+            self.current_pos = UNKNOWN_POS;
+            self.next_shape = 0;
             if let Err(e) = self
                 .source
                 .seek(SeekFrom::Start(header::HEADER_SIZE as u64))
             {
                 return Some(Err(Error::IoError(e)));
             }
-            Some(Ok(shape))
+            self.current_pos = header::HEADER_SIZE as usize;
+            Some(result)
         } else {
             Some(Err(Error::MissingIndexFile))
         }
@@ -456,10 +484,15 @@ impl<T: Read + Seek> ShapeReader<T> {
                 .get(index)
                 .map(|shape_idx| (shape_idx.offset * 2) as u64);
 
-            match offset {
+            let num_shapes = shapes_index.len();
+
+            self.current_pos = UNKNOWN_POS;
+            let new_pos = match offset {
                 Some(n) => self.source.seek(SeekFrom::Start(n)),
                 None => self.source.seek(SeekFrom::End(0)),
             }?;
+            self.current_pos = usize::try_from(new_pos).unwrap_or(UNKNOWN_POS);
+            self.next_shape = index.min(num_shapes);
             Ok(())
         } else {
             Err(Error::MissingIndexFile)
